@@ -948,7 +948,7 @@ class Result:
 
 
 def execute(spec, options, sched_mode=None, knobs=None, defaults=None, label='main',
-            run_kwargs=None):
+            run_kwargs=None, found_suites=None):
     """One complete run of the real runner on spec's world under the simulator."""
     knobs = dict(spec.get('knobs') or {}, **(knobs or {}))
     env = Env(spec, sched_mode if sched_mode is not None else spec.get('sched'), knobs)
@@ -978,8 +978,15 @@ def execute(spec, options, sched_mode=None, knobs=None, defaults=None, label='ma
     res.hang = None
     try:
         try:
-            res.verdict = zope.testrunner.run_internal(
-                defaults, list(args), **(run_kwargs or {}))
+            if found_suites is not None:
+                # the documented seam for feeding suites without a source tree
+                runner = RecordingRunner(defaults, list(args), found_suites=found_suites,
+                                         script_parts=[CHILD_SCRIPT], cwd=os.getcwd())
+                runner.run()
+                res.verdict = runner.failed
+            else:
+                res.verdict = zope.testrunner.run_internal(
+                    defaults, list(args), **(run_kwargs or {}))
         except Hang as e:
             res.hang = str(e)
         except StepCap:
